@@ -47,6 +47,7 @@ def _run_task(args):
                                      "violations", "inconclusive", "errors", "excluded_paths",
                                      "maybe_infeasible")}
   out["dumped"] = dumped[:4]
+  out["generic_disagreements"] = getattr(st, "generic_disagreements", 0)
   out["harness"] = hname
   out["cfg"] = core._jsonable(cfg)
   out["wall_s"] = time.time() - t0
@@ -329,6 +330,7 @@ def report(a, mod, results, wall, seed, extra=None):
       "paths_outside_precondition": agg["excluded_paths"],
       "paths_with_unknown_feasibility": agg["maybe_infeasible"],
       "witnesses_skipped": agg["witness_skipped"],
+      "generic_witness_disagreements": sum(r.get("generic_disagreements", 0) for r in results),
       "tasks": len(results),
       "per_harness": per_harness,
       "functions_encoded": meta.get("functions", []),
